@@ -454,6 +454,39 @@ def rule_itemdim(ctx, py):
     ctx.floor(R, 1)
 
 
+def rule_synonyms(ctx, py):
+    """C20.SYNONYMS -- process_input_dict_keys refuses a dictionary that holds two keys of one synonym row, whichever two: the
+    keys found are counted over the whole row (the row is not sliced or split into `canonical` and `aliases`) and more than one
+    raises."""
+    R = "C20.SYNONYMS"
+    f = py.fn("value_processing.process_input_dict_keys")
+    syn = pyfe.params(f)[1]
+    loops = [n for n in ast.walk(f) if isinstance(n, ast.For) and pyfe.src(n.iter) in (syn, "list(%s)" % syn) and
+             isinstance(n.target, ast.Name) and any(isinstance(x, ast.Raise) for x in ast.walk(n))]
+    ctx.need(len(loops) == 1, R, "process_input_dict_keys: the duplicate-synonym loop (for row in synonyms ... raise) is not found")
+    lp = loops[0]
+    row = lp.target.id
+    cut = [x for x in ast.walk(lp) if isinstance(x, ast.Subscript) and isinstance(x.value, ast.Name) and x.value.id == row]
+    ctx.check(not cut, R, cut[0] if cut else lp, f._qual, "keys counted over the whole row `%s`" % row, "any two keys of a row collide",
+              "the row is taken apart (`%s`): only some pairs of synonyms are detected, two aliases of one field are accepted together "
+              "and the later one silently wins" % (pyfe.src(cut[0]) if cut else ""))
+    # simple syntactic guard chain of the raise
+    for r in [x for x in ast.walk(lp) if isinstance(x, ast.Raise)]:
+        conds = []
+        p_ = pyfe.parent(r)
+        child = r
+        while p_ is not None and p_ is not lp:
+            if isinstance(p_, ast.If) and child in p_.body:
+                conds.append(pyfe.src(p_.test).replace(" ", ""))
+            child = p_
+            p_ = pyfe.parent(p_)
+        import re as _re
+        okk = any(_re.search(r"len\([^)]*\)>1|len\([^)]*\)>=2|1<len\(|2<=len\(|count>1|n_found>1", c_) for c_ in conds)
+        ctx.check(okk, R, r, f._qual, "raise under " + " and ".join(conds)[:90], "more than one key of the row",
+                  "the duplicate-synonym error is not raised whenever more than one key of the row is present (conditions: %s)" % conds)
+    ctx.floor(R, 2)
+
+
 def run(ctx):
     py = ctx.py
     rule_keys(ctx, py)
@@ -464,6 +497,7 @@ def run(ctx):
     rule_pos(ctx, py)
     rule_extidx(ctx, py)
     rule_itemdim(ctx, py)
+    rule_synonyms(ctx, py)
     # shared: the coarse-graining map (C16.VALID-FIRST + C16.M1) and the bounds entailment (C15.ENT)
     n0 = len(ctx.insts)
     c16.rule_valid_first(ctx, py)
@@ -473,5 +507,5 @@ def run(ctx):
         i.rule = "C20.CGMAP" if i.rule.startswith("C16") else "C20.POS-ENT"
     ctx.floors = {k: v for k, v in ctx.floors.items() if k.startswith("C20")}
     from .. import lints
-    lints.run(ctx, "C20", ctx.py, ["rdnetwork", "rdgridspace", "rdgraphspace", "rdsystem", "rdscript", "value_processing", "units"], truth_floor=100)
+    lints.run(ctx, "C20", ctx.py, ["rdnetwork", "rdgridspace", "rdgraphspace", "rdsystem", "rdscript", "value_processing", "units", "coarsegrain", "rdoutput", "kinetics", "librdengine"], truth_floor=100)
     ctx.assume("that every invalid *value* of every field is rejected is not decided; only the listed classes")
